@@ -39,6 +39,9 @@ vars == <<cfg, y, x, z, last>>
 Cs(k) == 1..Len(k.m)
 Hs(k) == 1..Len(k.N)
 Half == <<1, 2>>
+\* explicit tuple <<e(1), .., e(n)>> (TLC evaluates a function constructor lazily, again at every
+\* application; the shapes here have at most three entries)
+Tup(n, e(_)) == IF n = 1 THEN <<e(1)>> ELSE IF n = 2 THEN <<e(1), e(2)>> ELSE <<e(1), e(2), e(3)>>
 
 \* sums through the least common denominator: same values as Rat!Add, smaller intermediates
 AddL(a, b) == LET g == GCD(a[2], b[2])
@@ -69,15 +72,15 @@ FnX(k, yy, zz, h, c) ==
     SubL(k.F[h][c], Mul(k.N[h][c], AddL(AddL(k.m[c], Mul(k.D[c], zz[c])), Mul(k.V[c], yy))))
 PrecX(k, h) == AddL(One, SumL([c \in Cs(k) |-> Div(Mul(k.N[h][c], Sq(k.U[c])), k.s[c])], Cs(k)))
 NewX(k, yy, zz) ==
-    [h \in Hs(k) |-> Div(SumL([c \in Cs(k) |-> Mul(Div(k.U[c], k.s[c]), FnX(k, yy, zz, h, c))], Cs(k)),
-                         PrecX(k, h))]
+    Tup(Len(k.N), LAMBDA h : Div(SumL([c \in Cs(k) |-> Mul(Div(k.U[c], k.s[c]), FnX(k, yy, zz, h, c))], Cs(k)),
+                                 PrecX(k, h)))
 
 \* residual offset: (1 + N_c D_c^2/s_c)^-1 D_c/s_c (F_c - N_c (m_c + V_c y) - sum_h N_hc U_c x_h)
 FnZ(k, yy, xx, c) ==
     SubL(SubL(Ft(k, c), Mul(Nt(k, c), AddL(k.m[c], Mul(k.V[c], yy)))),
          SumL([h \in Hs(k) |-> Mul(k.N[h][c], Mul(k.U[c], xx[h]))], Hs(k)))
 PrecZ(k, c) == AddL(One, Div(Mul(Nt(k, c), Sq(k.D[c])), k.s[c]))
-NewZ(k, yy, xx) == [c \in Cs(k) |-> Div(Mul(Div(k.D[c], k.s[c]), FnZ(k, yy, xx, c)), PrecZ(k, c))]
+NewZ(k, yy, xx) == Tup(Len(k.m), LAMBDA c : Div(Mul(Div(k.D[c], k.s[c]), FnZ(k, yy, xx, c)), PrecZ(k, c)))
 
 \* ------------------------------------------------------------------ declarative side
 \* offset of component c in session h, centred statistics, joint log-posterior (Appendix D)
@@ -145,8 +148,8 @@ BlockIsArgmax ==
 \* the channel factors at theirs given (y, z = 0), the speaker factor at its given (x, z) = 0
 EnrollIsBlockwise ==
     last = "EnrollIter" =>
-        LET z0 == [c \in Cs(cfg) |-> Zero]
-            x0 == [h \in Hs(cfg) |-> Zero]
+        LET z0 == Tup(Len(cfg.m), LAMBDA c : Zero)
+            x0 == Tup(Len(cfg.N), LAMBDA h : Zero)
         IN /\ \A c \in Cs(cfg) : IsZero(GradZ(cfg, y, x, z, c))
            /\ \A h \in Hs(cfg) : IsZero(GradX(cfg, y, x, z0, h))
            /\ cfg.jfa => IsZero(GradY(cfg, y, x0, z0))
@@ -160,22 +163,22 @@ JNonDecreasingEnroll ==
 \* features x -> a x + b: m -> a m + b, s -> a^2 s, (U, V, D) -> a (U, V, D), F -> a F + b N;
 \* the latent updates and J do not change
 Aff(k, a, b) ==
-    [jfa |-> k.jfa,
-     m |-> [c \in Cs(k) |-> AddL(Mul(a, k.m[c]), b)],
-     s |-> [c \in Cs(k) |-> Mul(Sq(a), k.s[c])],
-     U |-> [c \in Cs(k) |-> Mul(a, k.U[c])],
-     V |-> [c \in Cs(k) |-> Mul(a, k.V[c])],
-     D |-> [c \in Cs(k) |-> Mul(a, k.D[c])],
-     N |-> k.N,
-     F |-> [h \in Hs(k) |-> [c \in Cs(k) |-> AddL(Mul(a, k.F[h][c]), Mul(b, k.N[h][c]))]]]
+    LET nc == Len(k.m)
+    IN [jfa |-> k.jfa,
+        m |-> Tup(nc, LAMBDA c : AddL(Mul(a, k.m[c]), b)),
+        s |-> Tup(nc, LAMBDA c : Mul(Sq(a), k.s[c])),
+        U |-> Tup(nc, LAMBDA c : Mul(a, k.U[c])),
+        V |-> Tup(nc, LAMBDA c : Mul(a, k.V[c])),
+        D |-> Tup(nc, LAMBDA c : Mul(a, k.D[c])),
+        N |-> k.N,
+        F |-> Tup(Len(k.N), LAMBDA h : Tup(nc, LAMBDA c : AddL(Mul(a, k.F[h][c]), Mul(b, k.N[h][c]))))]
 AffineInvariant ==
     last = "init" =>
-        \A t \in Affs :
-            LET k2 == Aff(cfg, t[1], t[2])
-            IN /\ NewY(k2, x, z) = NewY(cfg, x, z)
-               /\ NewX(k2, y, z) = NewX(cfg, y, z)
-               /\ NewZ(k2, y, x) = NewZ(cfg, y, x)
-               /\ J(k2, y, x, z) = J(cfg, y, x, z)
+        \A k2 \in {Aff(cfg, t[1], t[2]) : t \in Affs} :      \* (a set: its elements are evaluated once)
+            /\ NewY(k2, x, z) = NewY(cfg, x, z)
+            /\ NewX(k2, y, z) = NewX(cfg, y, z)
+            /\ NewZ(k2, y, x) = NewZ(cfg, y, x)
+            /\ J(k2, y, x, z) = J(cfg, y, x, z)
 
 \* ------------------------------------------------------------------ export (one record per edge)
 Export ==
